@@ -58,6 +58,22 @@ check('C02', 'exploration',
       "Order across the swap itself is C07's; ping/pong/noop between frames are ignored.",
       "independent wire observer + strict reassembly state machine + per-emitter monotonicity", "DESIGN.md §3 C02")
 
+check('C03', 'exploration',
+      "Ack trials in sio<->sio worlds (polling, websocket, upgraded; both directions): reply delay swept over {0, T/2, the race band T-2ms..T+2ms in 0.25 ms steps, 2T, never} for T in {20,100,400 ms}, "
+      "0/2 attachments, responder calling its ack function once / twice / twice concurrently, all trials of a direction outstanding at once; per-emission callback counter and reply-token "
+      "oracle (at most once; exactly once with a timeout, decided at timeout+10 s; reply token or ErrAckTimeout with zero values); wire-level ACK count per id through a raw peer; "
+      "offline (never connected) timeouts with 0..3 attachments followed by connect, probe round trip and server-side 'purged event not seen / no error / no disconnect'; link cut mid-flight.",
+      "No outcome is prescribed inside the race band; a late reply reported to error handlers ('ACK with ID n not found') is not counted as a violation.",
+      "callback-count + reply-token monitor over timing sweeps; wire observer; post-condition probes", "DESIGN.md §3 C03")
+
+check('C17', 'exploration',
+      "The complete 1600-cell request matrix (method x EIO x transport x sid{absent,unknown,live,closed} x b64 x jsonp), run twice (live session on polling and on WebSocket; thorough: three cell "
+      "orders each) against a real server over loopback HTTP with a set-valued protocol-table oracle and per-cell side-effect and liveness monitors; 1e5/1e6 generated ids and hundreds of "
+      "concurrent live handshakes pairwise distinct; 60/600 rounds of handshakes racing Server.Close (seeded offsets, sleeping Authenticator or slow NewSocketCallback) decided by a counting "
+      "oracle plus a porcupine 3-state model at quiescence with a 15 s watchdog.",
+      "Fault-to-code table transcribed from the Engine.IO v4 protocol; one-mutex callback recorder; VerifSessionCount (store size); porcupine v1.3.0.",
+      "exhaustive request matrix with table oracle + state-invariance monitors; seeded Close races with counting/porcupine oracle", "DESIGN.md §3 C17")
+
 for pid in ['C01','C02','C03','C04','C05','C06','C07','C08','C10','C11','C12','C13','C14','C15','C16','C17','C18','C19']:
     if pid not in P:
         na(pid, "check not built yet in this round (planned, see DESIGN.md §3); not claimed until its monitor runs clean on the unchanged tree")
